@@ -408,9 +408,10 @@ func (r *checkRun) finish(w *World) int {
 	}
 	// bounded stand-ins
 	bexit := r.runBounded()
-	if bexit != 0 {
+	if bexit == 1 {
 		exit = 1
 	}
+	undecided := bexit == 3
 	if total == 0 && exit == 0 {
 		fmt.Println("FAILED: zero obligations generated (vacuous check)")
 		return r.fatalViolation("vacuity", "zero obligations generated")
@@ -439,6 +440,10 @@ func (r *checkRun) finish(w *World) int {
 	sort.Strings(assumptions)
 	cov["assumption_scan"] = len(assumptions)
 	r.writeEvidenceFileFull(cov, assumptions, len(r.violations))
+	if undecided && exit == 0 {
+		// neither held nor violated: a stand-in could not be built. Exit 2 (tool error), no VIOLATION line.
+		return 2
+	}
 	return exit
 }
 
